@@ -16,6 +16,9 @@
 //	    headers against a reference model; (c2) header mutations of chain types with hand-written decoders
 //	    (chainhdr.go).
 //
+//	(race pass) racepass.go + RACEPASS: the same binary built with -race runs 8 goroutines on private values
+//	    (cold type cache, pools, scratch buffers) before the main run; a detector report is a violation.
+//
 // Oracles: an independent canonical-form recogniser (recog.go) + type conformance model decide what must be
 // accepted and what must be rejected; accept => Encode(Decode(s)) == s; Decode(Encode(v)) == v; encodings
 // byte-identical to the reference; no panic; bounded allocation. See DESIGN.md section 4 / C16.
@@ -261,6 +264,9 @@ func rerunCases(rc replayCase, gts func() []*gtyp) []*vcase {
 
 func main() {
 	r = report.New("C16", "exploration")
+	if os.Getenv("C16_RACE_PASS") == "1" {
+		runRacePass() // free-running pass under the race detector (racepass.go); exits
+	}
 	initTargets()
 	initScalarTargets()
 	thorough := r.Thorough()
@@ -383,20 +389,54 @@ func main() {
 	runStrings()
 	phase("strings")
 
+	// The verdict of run.sh's -race pass. A reported data race in the code under test means that the parallel
+	// phases of this run worked on top of that race: an observation made there need not reproduce single-threaded.
+	// Such an observation is recorded, not reported, and the run is decided by the data-race violation (mc/report).
+	rp := os.Getenv("VERIF_RACE_PASS")
+	raceReported := strings.HasPrefix(rp, "race:")
+	if strings.HasPrefix(rp, "failed:1:") {
+		// the pass's second oracle fired before the detector did
+		out, _ := os.ReadFile(strings.TrimPrefix(rp, "failed:1:"))
+		var lines []string
+		for _, l := range strings.Split(string(out), "\n") {
+			if strings.HasPrefix(l, "RESULT DIFFERS") && len(lines) < 5 {
+				lines = append(lines, l)
+			}
+		}
+		if len(lines) > 0 {
+			raceReported = true
+			r.Violation("C16|oracle=concurrent-result-differs-from-single-threaded-value",
+				"goroutines encoding / decoding private values got results that differ from the values computed single-threaded (shared mutable state inside lib/rlp): "+strings.Join(lines, " | "),
+				map[string]interface{}{"kind": "race-pass", "output": lines})
+		}
+	}
 	// emit violations (smallest case per signature), each re-executed 5 times
 	tierNote := "tier=" + r.Tier()
 	for _, v := range viol.sorted() {
 		v := v
 		v.rc.Note = tierNote
 		v.rc.Count = v.count
-		r.ViolationConfirmed(v.sig, fmt.Sprintf("%s [%d occurrence(s)]", v.what, v.count), v.rc, func() string {
+		again := func() string {
 			for _, s := range rerun(v.rc, gts) {
 				if s == v.sig {
 					return s
 				}
 			}
 			return "(not reproduced)"
-		})
+		}
+		if raceReported {
+			ok := true
+			for i := 0; i < 5 && ok; i++ {
+				ok = again() == v.sig
+			}
+			if !ok {
+				r.Add("observations_under_reported_race_not_reproduced", 1)
+				continue
+			}
+			r.Violation(v.sig, fmt.Sprintf("%s [%d occurrence(s)]", v.what, v.count), v.rc)
+			continue
+		}
+		r.ViolationConfirmed(v.sig, fmt.Sprintf("%s [%d occurrence(s)]", v.what, v.count), v.rc, again)
 	}
 	for _, p := range []string{"strings", "scalars", "alloc", "values", "chain"} {
 		for _, x := range samplesBy[p] {
@@ -421,6 +461,9 @@ func main() {
 		"(c2) chain types with hand-written decoders (Transaction, Log, LogForStorage incl. legacy format, Receipt, ReceiptForStorage, BlockInfo) and StateAccount / Header: every other header form of the outer list, "+
 		"the first inner list and the first non-empty inner string of small (payload < 56 where the type allows) and ordinary instances, alone, inside a list and behind a canonical sibling: accepted => canonical and re-encoding identical; (b) every value of every generated type (13 leaf kinds x 9 container constructors, "+
 		"depth <= 2) with leaf values from boundary sets; (c) full boundary products of transaction / receipt / block-info / log / state-account / header fields. "+
+		"(race pass, run.sh RACEPASS) before this run the checker built with -race ran 8 goroutines behind a barrier on private values: first use of cold types (shared by all goroutines and 3 fresh reflect.StructOf types each, "+
+		"nil/nilList/nilString/optional/tail tags, RawValue, chain types; expected bytes from the reference) and 250 fixed iterations of big integers of every size class, every encoder entry point incl. EncodeToReader "+
+		"(full, piecewise past EOF, abandoned), DecodeBytes, NewStream/NewListStream sequences, Split/CountValues/iterator and the chain types, each result compared with its single-threaded value; verdict in race_pass. "+
 		"distinct_nontrivial counts distinct (target type or API, accept-or-rejection-class, recogniser verdict or structural shape of the input) triples for (a), "+
 		"distinct (constructor, leaf kind, shape of the encoding) for (b) and distinct field-choice vectors for (c); a case is non-trivial because every one executes the real codec.")
 	r.Assume(
